@@ -17,6 +17,27 @@ static inline struct vs_opt_int  *vs_opt_int_assign(struct vs_opt_int *o, int v)
 static inline struct vs_opt_date *vs_opt_date_assign(struct vs_opt_date *o, const struct vs_opaque *d) { o->has = 1; o->v = *d; return o; }
 /* ghost: the input text of the call (base pointer and length), and what CookieJar::add was given */
 const char *g_in; size_t g_in_len; size_t g_add_calls;
+struct vs_spair { struct vs_astr first, second; };
+/* Cookie::ext[name] = value (extension attributes, C17 write/parse round trip): both are cut out of the cookie text -- the name ends at an '=' (or at
+   the end of the text, the value then being empty), the value starts right behind that '=' and ends at the ';' that ends the attribute or at the
+   end of the text */
+extern const char *g_in; extern size_t g_in_len; size_t g_ext_calls;
+static inline void vs_ext_insert(struct vs_astr name, struct vs_astr value)
+{
+    __CPROVER_assert(__CPROVER_same_object(name.src, g_in), "extension attribute: the name is a piece of the cookie text");
+    size_t no = (size_t)__CPROVER_POINTER_OFFSET(name.src);
+    __CPROVER_assert(name.size <= g_in_len && no <= g_in_len - name.size, "extension attribute: the name lies inside the cookie text");
+    if (no + name.size == g_in_len) __CPROVER_assert(value.size == 0, "extension attribute without '=': the value is empty");
+    else {
+        __CPROVER_assert(g_in[no + name.size] == '=', "extension attribute: the name ends at the '='");
+        if (value.size > 0) {
+            __CPROVER_assert(value.src == name.src + name.size + 1, "extension attribute: the value starts right behind the '='");
+            __CPROVER_assert(value.size <= g_in_len - (no + name.size + 1), "extension attribute: the value lies inside the cookie text");
+            __CPROVER_assert(no + name.size + 1 + value.size == g_in_len || g_in[no + name.size + 1 + value.size] == ';', "C17: an extension value ends exactly at the ';' that ends the attribute (or at the end of the text)");
+        }
+    }
+    g_ext_calls++;
+}
 /* ghost: a scan for '=' ran into the end of the header text */
 bool g_no_eq;
 /* ghost: the attribute matched last was a flag (Secure/HttpOnly): whatever character follows the word is skipped */
@@ -25,7 +46,7 @@ bool g_flag_last;
 #define ATTR_DONE(c) (POS(c) == LEN(c) || BYTE(c, POS(c) - 1) == ';')
 '''
 TYPES = dict(_s.TYPES)
-TYPES.update({'std::string': 'struct vs_astr', 'Pistache::RawStreamBuf<char>::Base': 'struct vs_streambuf',
+TYPES.update({'std::pair<std::string, std::string>': 'struct vs_spair', 'std::string': 'struct vs_astr', 'Pistache::RawStreamBuf<char>::Base': 'struct vs_streambuf',
               'std::optional<std::string>': 'struct vs_opt_astr', 'std::optional<int>': 'struct vs_opt_int',
               'std::optional<Pistache::Http::FullDate>': 'struct vs_opt_date', 'std::optional<FullDate>': 'struct vs_opt_date'})
 STUBS = dict(_s.STUBS)
@@ -38,6 +59,11 @@ STUBS.update({
     'ctor:std::optional<int>/1': {'expr': '((struct vs_opt_int){1, $0})'},
     'operator=|std::optional<int>,std::optional<int>': {'expr': '(($0) = ($1))'},
     'Pistache::Http::CookieJar::add': 'vs_jar_add',
+    # the extension attributes of a cookie: what is stored under which name (insert / emplace / operator[] spellings)
+    'make_pair': {'expr': '((struct vs_spair){($0), ($1)})'},
+    'std::map<std::string, std::string>::insert': {'expr': 'vs_ext_insert(($0).first, ($0).second)'},
+    'std::map<std::string, std::string>::emplace': {'expr': 'vs_ext_insert($0, $1)'}, 'std::map<std::string, std::string>::try_emplace': {'expr': 'vs_ext_insert($0, $1)'},
+    'std::map<std::string, std::string>::insert_or_assign': {'expr': 'vs_ext_insert($0, $1)'},
     'isdigit': 'vs_isdigit', 'max': {'expr': '2147483647'},
     'baseinit:Pistache::StreamBuf<char>': '$->vs_base_StreamBuf = (struct vs_streambuf){0}',
     'ctor:std::optional<std::string>/0': {'expr': '((struct vs_opt_astr){0})'}, 'ctor:std::optional<int>/0': {'expr': '((struct vs_opt_int){0})'},
@@ -150,15 +176,15 @@ FUNCTIONS = list(_s.FUNCTIONS) + [
     {'q': 'Pistache::Http::Cookie::fromRaw', 'hoist_all': True,
      'ghost': [('Pistache_skip_whitespaces', 'before', 'g_flag_last = 0;'), ('match_attribute_bool', 'after', 'if ($RET) g_flag_last = 1;')],
      'dead_ok': ['throw std::runtime_error("Invalid cookie, missing value");'], 'contract': """
-        requires len <= MAXLEN && FRESH(str, len) && vs_exc == 0
-        assigns vs_exc, g_hit_end, g_j, g_app_src, g_flag_last
+        requires len <= MAXLEN && FRESH(str, len) && vs_exc == 0 && PTR_EQ(g_in, str) && g_in_len == len
+        assigns vs_exc, g_hit_end, g_j, g_app_src, g_flag_last, g_ext_calls
         # C17: malformed cookie text is rejected with an error, never a crash: every read lies in [str, str+len) (the text is an object of
         # exactly len bytes), the attribute loop terminates, and only std exceptions leave the function
         ensures COOKIE_EXC_OK
         # the name is the text before the first '=', the value starts right behind it
         ensures (vs_exc == 0 && RET.maxAge.has) ==> RET.maxAge.v >= 0""",
      'loops': ["""
-        assigns buf.vs_base_StreamBuf.pos, vs_exc, g_hit_end, g_j, g_app_src, g_flag_last, cookie, $HOISTED
+        assigns buf.vs_base_StreamBuf.pos, vs_exc, g_hit_end, g_j, g_app_src, g_flag_last, g_ext_calls, cookie, $HOISTED
         invariant buf.vs_base_StreamBuf.pos <= buf.vs_base_StreamBuf.len && vs_exc == 0 && (cookie.maxAge.has ==> cookie.maxAge.v >= 0)
         # every attribute -- known or extension -- is consumed together with the ';' that ends it, so that the next attribute name starts
         # behind the separator and never with it (flags excepted: the character behind the word is skipped unseen)
